@@ -504,6 +504,18 @@ func canonDirectives(s *Spec) string {
 
 // hiddenDirectiveArgs lists "directive.arg" for the directive arguments whose type is not visible under F.
 func hiddenDirectiveArgs(s *Spec, F map[string]bool) []string {
+	if dirArgsFixed {
+		return nil // the library hides them itself (fix 05): nothing is outside the theorems' domain
+	}
+	return gatedDirectiveArgs(s, F)
+}
+
+// dirArgsFixed: the library under test treats a directive argument of a hidden type as undefined (fix
+// 05). Detected at start-up (probeDirArgsFix), so that the same harness is right before and after the
+// fix is applied to /repo.
+var dirArgsFixed bool
+
+func gatedDirectiveArgs(s *Spec, F map[string]bool) []string {
 	var out []string
 	for _, d := range s.Directives {
 		for _, a := range d.Args {
